@@ -59,6 +59,17 @@ CLAIMS = {
         "design_ref": "DESIGN.md section 4 C05",
         "note": "numpy.fft (fftn/ifftn/fftshift/ifftshift) is trusted; equality with the DFT matrix follows from the pipeline identity fftshift . fftn . ifftshift (a mathematical fact) and is not evaluated numerically.",
     },
+    "C06": {
+        "engine": "E3 value numbering + loop summaries",
+        "category": "other",
+        "technique": "static analysis: canonical-term comparison of nufft, nufft_adjoint, _get_oversamp_shape, _scale_coord, _apodize and toeplitz_psf with the documented (Beatty et al.) pipelines; beta formula identity",
+        "text": "PARTIAL. Decides the structural clause: nufft and nufft_adjoint are exactly the documented step sequences with one kernel width, one beta (Beatty's formula), one oversampled grid "
+                "ceil(oversamp n), coordinates scaled and shifted to that grid, apodisation x/sinh(x) centred at n//2, FFT over the last ndim axes without normalisation, and the adjoint's scaling "
+                "prod(os_shape) N^-1/2 that makes it the exact adjoint; toeplitz_psf composes both with one parameter set. These are necessary for the stated accuracy and for exact adjointness and hold for all inputs.",
+        "design_ref": "DESIGN.md section 4 C06",
+        "note": "NOT decided: the numerical accuracy figures (3 % / 0.3 %) and periodicity - they depend on the approximation quality of Kaiser-Bessel gridding, which no static argument in reach bounds. "
+                "The kernels (C07), resize (C09) and fft (C05) are decided in their own properties.",
+    },
     "C07": {
         "engine": "E3 value numbering + kernel loop-nest summaries (kernelsum.py)",
         "category": "other",
